@@ -14,6 +14,7 @@ func init() {
 	vpRegister("VPH_C19_refused_keeps_global", VPH_C19_refused_keeps_global)
 	vpRegister("VPH_C19_second_client", VPH_C19_second_client)
 	vpRegister("VPH_C19_two_clients_fixed_instant", VPH_C19_two_clients_fixed_instant)
+	vpRegister("VPH_C19_newcomer_after_cleanup", VPH_C19_newcomer_after_cleanup)
 }
 
 // vpAt returns the time.Time the code sees when the clock reads t.
@@ -291,7 +292,8 @@ func VPH_C19_two_clients_fixed_instant() {
 	cfg := RateLimiterConfig{GlobalRequestsPerSecond: 1000, PerIPRequestsPerSecond: 1, PerIPBurstSize: 2,
 		PerConnectionRequestsPerSecond: 1000, PerConnectionBurstSize: 1000, CleanupInterval: time.Hour}
 	rl := NewRateLimiter(cfg)
-	ips := []string{"10.0.0.1", "10.0.0.2"}
+	// two IPv4 clients, two IPv6 clients, or one of each
+	ips := [][]string{{"10.0.0.1", "10.0.0.2"}, {"2001:db8::1", "2001:db8::2"}, {"10.0.0.1", "2001:db8::1"}}[vpChoose("address-families", 0, 2)]
 	sent := map[string]int{}
 	for i := 0; i < k; i++ {
 		ip := ips[vpChoose("ip", 0, 1)]
@@ -300,4 +302,37 @@ func VPH_C19_two_clients_fixed_instant() {
 		sent[ip]++
 	}
 	vpReach("two-clients")
+}
+
+// VPH_C19_newcomer_after_cleanup: one client exhausts its own per-IP burst; any time later (so
+// that the periodic cleanup of idle limiters may or may not have run, triggered by a third
+// client's request) a client never seen before sends its first burst at one instant: all of it is
+// admitted - nothing of the first client's exhaustion is carried over to anybody else.
+func VPH_C19_newcomer_after_cleanup() {
+	t0 := int64(1_000_000_000)
+	vpSetClock(t0)
+	cfg := RateLimiterConfig{GlobalRequestsPerSecond: 1000, PerIPRequestsPerSecond: 1, PerIPBurstSize: 2,
+		PerConnectionRequestsPerSecond: 1000, PerConnectionBurstSize: 1000, CleanupInterval: 10 * time.Second}
+	rl := NewRateLimiter(cfg)
+	n := 0
+	for i := 0; i < 4; i++ {
+		if rl.AllowRequest("10.0.0.1", "conn-a") {
+			n++
+		}
+	}
+	vpAssert(n == 2, "first-client-held-to-its-burst")
+	// later: 0 s, 5 s (bucket refilled, no cleanup yet), 15 s or an hour (cleanup due)
+	later := []int64{0, 5, 15, 3600}[vpChoose("seconds-later", 0, 3)]
+	vpSetClock(t0 + later*1_000_000_000)
+	if vpBool("third-client-first") {
+		rl.AllowRequest("10.0.0.3", "conn-c") // this request is the one that runs the cleanup
+	}
+	got := 0
+	for i := 0; i < 3; i++ {
+		if rl.AllowRequest("10.0.0.2", "conn-b") {
+			got++
+		}
+	}
+	vpAssert(got == 2, "newcomer-gets-its-own-full-burst")
+	vpReach("newcomer")
 }
